@@ -90,6 +90,9 @@ def rand_custom(rng, ascii_only):
         c["flag"] = rng.choice([True, False])
     if rng.random() < 0.3:
         c["arr"] = [1, "two", None]
+    if rng.random() < 0.12:
+        # a top-level key that itself contains a dot: `custom("meta.author")` is the nested lookup, never this key
+        c[rng.choice(["meta.author", "meta.n", "meta.deep.x", "build_id.x"])] = leaf()
     return c
 
 
